@@ -5,7 +5,8 @@
    as a hypothesis of the history).  C06_instance_Qi shows that the Gaussian rationals evaluated by the
    correspondence check satisfy the laws, so every theorem applies to the evaluated instance. *)
 From Coq Require Import List Bool ZArith.
-From Pymoto Require Import Base.Fld Base.FldP Base.QI Base.QIP Model.Lda Proofs.LdaP.
+From Coq Require Import QArith.
+From Pymoto Require Import Base.Fld Base.FldP Base.QI Base.QIP Model.Lda Proofs.LdaP Model.LdaGlue Proofs.LdaGlueP.
 Import ListNotations.
 
 (* storage selection / conjugation per trans mode and symmetry class (12 cases):
@@ -174,3 +175,55 @@ Example C06_nonvacuous_history : hist_ok inner_swap (init_state None None) nv_op
 Proof. exact nv_hist_ok. Qed.
 Example C06_nonvacuous_calls : call_pattern (run inner_swap (init_state None None) nv_ops) = [9; 1; 0; 1]%nat.
 Proof. exact nv_calls. Qed.
+
+(* ---- "LinSolve wraps every solver in LDAWrapper by default" (Model/LdaGlue.v = the wrapping statement of
+   LinSolve._response, regenerated from the source on every run, bridge/C06/GlueBridge.v).  The wrapper tolerance the
+   property names is derived from the solver that is wrapped: 5 x its tolerance when it has one (iterative solvers),
+   the default 1e-7 of LDAWrapper otherwise.  Residuals and tolerances are exact rationals here; that the floating
+   point residuals of the implementation obey these inequalities is checked by the oracle of tools/checks/C06.py
+   (LinSolve around counting CG solvers with tolerances 1e-4 .. 1e-12 and direct solvers). *)
+Theorem C06_linsolve_wraps_by_default : forall is_lda use_lda,
+  wrap_needed is_lda use_lda = true <-> is_lda = false /\ use_lda = true.
+Proof. exact wrap_needed_spec. Qed.
+Print Assumptions C06_linsolve_wraps_by_default.
+
+Theorem C06_linsolve_wrapper_tol : (forall t, linsolve_wrapper_tol (Some t) == 5 * t)%Q /\
+                                   (linsolve_wrapper_tol None == 1 # 10000000)%Q.
+Proof. exact (conj wrapper_tol_iterative wrapper_tol_direct). Qed.
+Print Assumptions C06_linsolve_wrapper_tol.
+
+(* a solution accepted by the wrapped solver (relative residual <= its tolerance t) passes the acceptance test of the
+   wrapper LinSolve built around it (also with a margin of a factor 5): it is recognised, not solved again *)
+Theorem C06_linsolve_inner_solution_recognised : forall t res, (0 <= t)%Q -> (res <= 5 * t)%Q ->
+  needs_inner (linsolve_wrapper_tol (Some t)) res = false.
+Proof. exact inner_solution_margin. Qed.
+Print Assumptions C06_linsolve_inner_solution_recognised.
+
+(* whatever is answered from the database meets the named tolerance; anything worse reaches the inner solver *)
+Theorem C06_linsolve_database_answer_within_tol : forall it res,
+  needs_inner (linsolve_wrapper_tol it) res = false ->
+  (res <= match it with Some t => 5 * t | None => 1 # 10000000 end)%Q.
+Proof. exact database_answer_within_tol. Qed.
+Print Assumptions C06_linsolve_database_answer_within_tol.
+
+Theorem C06_linsolve_worse_is_solved : forall it res,
+  (match it with Some t => 5 * t | None => 1 # 10000000 end < res)%Q -> needs_inner (linsolve_wrapper_tol it) res = true.
+Proof. exact worse_than_tol_is_solved. Qed.
+Print Assumptions C06_linsolve_worse_is_solved.
+
+(* the variant that tests `hasattr(self.solver, 'tol')` after self.solver was replaced by the wrapper (always
+   5 x default) differs from the model for every solver without tolerance and every tolerance other than the default *)
+Theorem C06_linsolve_test_after_construction_differs :
+  (forall t, ~ (t == lda_default_tol)%Q -> ~ (linsolve_wrapper_tol (Some t) == wrapper_tol_test_after (Some t))%Q) /\
+  ~ (linsolve_wrapper_tol None == wrapper_tol_test_after None)%Q.
+Proof. exact (conj test_after_differs_iterative test_after_differs_direct). Qed.
+Print Assumptions C06_linsolve_test_after_construction_differs.
+
+(* non-vacuity: CG(tol=1e-4) wrapped by LinSolve: the stored solution (residual 1e-4) and twice it are recognised;
+   a direct solver: a right-hand side at relative distance 3e-7 from the database is solved, not reconstructed *)
+Example C06_linsolve_tol_examples :
+  needs_inner (linsolve_wrapper_tol (Some (1 # 10000))) (1 # 10000) = false /\
+  needs_inner (wrapper_tol_test_after (Some (1 # 10000))) (1 # 10000) = true /\
+  needs_inner (linsolve_wrapper_tol None) (3 # 10000000) = true /\
+  needs_inner (wrapper_tol_test_after None) (3 # 10000000) = false.
+Proof. vm_compute. repeat split. Qed.
